@@ -619,7 +619,8 @@ func (e *env) dump() map[string]interface{} {
 	if obj, err := e.as.Tracker().Get(setGVR, ns, e.base.Name); err == nil {
 		s := obj.(*apps.StatefulSet)
 		out["set"] = map[string]interface{}{"status": statusA(&s.Status), "rv": s.ResourceVersion, "deleting": s.DeletionTimestamp != nil,
-			"replicas": s.Spec.Replicas, "ann": s.Annotations, "gen": s.Generation}
+			"replicas": s.Spec.Replicas, "ann": s.Annotations, "gen": s.Generation, "tmpl": tmplOfPodSpec(&s.Spec.Template.Spec),
+			"policy": string(s.Spec.PodManagementPolicy), "strategy": string(s.Spec.UpdateStrategy.Type)}
 	} else {
 		out["set"] = nil
 	}
@@ -711,6 +712,13 @@ func (e *env) kubelet(op Op) string {
 	case "run":
 		p.Status.Phase = v1.PodRunning
 	case "ready":
+		p.Status.Phase = v1.PodRunning
+		setReady(true)
+	case "settle":
+		// the fairness premise: a pod the controller leaves in place eventually becomes Running and Ready
+		if p.DeletionTimestamp != nil || p.Status.Phase == v1.PodFailed || p.Status.Phase == v1.PodSucceeded {
+			return "ok"
+		}
 		p.Status.Phase = v1.PodRunning
 		setReady(true)
 	case "unready":
